@@ -5,6 +5,23 @@ from wx.meta import NameHashMeta
 from workloads import bodies
 
 
+from openhtf.util import validators as _validators
+
+
+class SeenValidator(_validators.ValidatorBase):
+  """A stateful validator: remembers what it was asked to judge (its text shows how much)."""
+
+  def __init__(self):
+    self.seen = []
+
+  def __call__(self, value):
+    self.seen.append(value)
+    return True
+
+  def __str__(self):
+    return 'Seen(%d values)' % len(self.seen)
+
+
 class IsoPlug(base_plugs.BasePlug, metaclass=NameHashMeta):
   COUNTER = [0]
 
@@ -45,7 +62,7 @@ def make_shared_nodes(sim, nphases, with_plug, with_args, run_of):
       test.attach('att_%s_%d' % (who, _k), who.encode())
       test.logger.info('isolog %s phase%d', who, _k)
     body.__name__ = 'iso%d' % k
-    ph = htf.measures(htf.Measurement('val%d' % k).in_range(0, 100),
+    ph = htf.measures(htf.Measurement('val%d' % k).in_range(0, 100).with_validator(SeenValidator()),
                       htf.Measurement('cond%d' % k).validate_on({bodies.R.R2: htf.core.measurements.validators.in_range(0, 5)}))(body)
     ph = htf.diagnose(diag)(ph)
     if with_plug:
